@@ -40,7 +40,7 @@ func init() {
 		Floors: func(t string) map[string]int64 {
 			return map[string]int64{"orbit.reversed_single_ring": 1000, "orbit.unclosed": 1000, "orbit.all_reversed": 500, "shape.with_holes": 500, "shape.multipolygon": 300,
 				"centroid.MultiPolygon": 1000, "centroid.Polygon": 500, "area.exact_equal": 5000, "area.float": 1000, "op.area": 500, "op.centroid": 500,
-				"distance.on_line": 500, "distance.beyond_end": 500, "distance.zero_length_segment": 200, "buffer": 500, "length": 1000, "line.long": 300, "storage.rings_share_one_backing_array": 1000, "shape.far_from_origin": 1000}
+				"distance.on_line": 500, "distance.beyond_end": 500, "distance.zero_length_segment": 200, "buffer": 500, "length": 1000, "line.long": 300, "storage.rings_share_one_backing_array": 1000, "shape.far_from_origin": 1000, "line.very_long": 100}
 		},
 	})
 }
@@ -453,6 +453,13 @@ func runLine(c *core.Ctx) {
 		n = []int{64, 65, 66, 129, 130, 200, 257, 400}[r.Intn(8)]
 		c.Count("line.long")
 	}
+	veryLong := false
+	if r.Chance(0.02) {
+		// 63 .. 65537 vertices: beyond block sizes of 1024 / 4096 (pairwise or chunked summation)
+		n = gen.BigLen(r)
+		veryLong = true
+		c.Count("line.very_long")
+	}
 	integer := r.Bool()
 	scale := 1.0
 	if !integer {
@@ -500,18 +507,24 @@ func runLine(c *core.Ctx) {
 	for _, l := range ml {
 		wantL += exact.Length(gen.EPath(l))
 	}
+	// plain left-to-right summation of n terms is accurate to about n ulps
+	lenTol := math.Max(1e-12, 4*float64(n)*1.2e-16)
 	c.Guard("Length", detail, func() {
 		got := lin.Length()
-		if math.Abs(got-wantL) > 1e-12*math.Max(wantL, ext) {
+		if math.Abs(got-wantL) > lenTol*math.Max(wantL, ext) {
 			c.Violate(fmt.Sprintf("length:%T", lin), fmt.Sprintf("Length() = %v, sum of segment lengths %v", got, wantL), detail)
 		}
 		var g geom.Geom = lin
-		if got := op.Length(g); math.Abs(got-wantL) > 1e-12*math.Max(wantL, ext) {
+		if got := op.Length(g); math.Abs(got-wantL) > lenTol*math.Max(wantL, ext) {
 			c.Violate(fmt.Sprintf("length:op:%T", lin), fmt.Sprintf("op.Length = %v, sum of segment lengths %v", got, wantL), detail)
 		}
 	})
 	// Distance
-	for q := 0; q < 6; q++ {
+	nq := 6
+	if veryLong {
+		nq = 1
+	}
+	for q := 0; q < nq; q++ {
 		var p geom.Point
 		l := ml[r.Intn(nl)]
 		i := r.Intn(len(l) - 1)
